@@ -180,6 +180,7 @@ Record accepted_head (a : adj) (p p' : parser) (hp : bytes)
   ah_no_crlf : has_cr_or_lf fl = false;
   ah_lines : add_header_lines (headers p) lines = inr h1;
   ah_crack : crack_first_line fl = Some (command p', request_uri p', version p');
+  ah_crack_ne : beqb (command p') [] && beqb (request_uri p') [] && beqb (version p') [] = false;
   ah_split : exists sc nl fr, split_uri (request_uri p') = SOk sc nl (path p') (query p') fr;
   ah_scheme : url_scheme p' = adj_url_scheme a;
   ah_status : status3 p' = status3 p;
@@ -209,7 +210,7 @@ Proof.
   cbn [headers set].
   destruct (add_header_lines (headers p) lines) as [[e h]|h1] eqn:Hadd; [discriminate|].
   destruct (crack_first_line _) as [[[cmd uri] ver]|] eqn:Hcrack; [|discriminate].
-  destruct (beqb cmd [] && beqb uri [] && beqb ver []); [discriminate|].
+  destruct (beqb cmd [] && beqb uri [] && beqb ver []) eqn:Ene; [discriminate|].
   unfold stage_uri.
   destruct (split_uri uri) as [sc nl pa qu fr| | |] eqn:Hsplit; try discriminate.
   set (fl := rstrip_by is_bytes_ws (firstn index hp)) in *.
@@ -237,6 +238,7 @@ Proof.
     + exact Hcr.
     + exact Hadd.
     + rewrite Rc, Ru, Rv. exact Hcrack.
+    + rewrite Rc, Ru, Rv. exact Ene.
     + exists sc, nl, fr. rewrite Ru, Rp, Rq. exact Hsplit.
     + exact Rs.
     + congruence.
@@ -258,6 +260,7 @@ Proof.
     + exact Hcr.
     + exact Hadd.
     + rewrite Rc, Ru, Rv. exact Hcrack.
+    + rewrite Rc, Ru, Rv. exact Ene.
     + exists sc, nl, fr. rewrite Ru, Rp, Rq. exact Hsplit.
     + exact Rs.
     + congruence.
